@@ -93,6 +93,9 @@ def _final_state_ok(ctx, F, final_name, what):
     c = f.content
     if final_name.endswith(".cbin"):
         ctx.oblige(f"{what}_final_name_only_when_complete", isinstance(c, Cbin) and c.complete, detail={"file": final_name, "content": repr(c)})
+        # a compressed stream is only usable together with its header file
+        ch = F.get(final_name[:-5] + ".ch")
+        ctx.oblige(f"{what}_compressed_file_never_without_its_header", ch is not None and bool(ch.exists), detail={"file": final_name})
     else:
         ctx.oblige(f"{what}_final_name_only_when_complete", isinstance(c, LArr), detail={"file": final_name, "content": repr(c)[:80]})
 
@@ -101,7 +104,8 @@ def case_compress(ctx, fault):
     import spikeglx
     keep = bool(ctx.bool("keep_original"))
     stale_tmp = bool(ctx.bool("stale_tmp_exists"))
-    F, raw = _install(True, False)
+    earlier = bool(ctx.bool("earlier_compressed_copy_exists"))      # a complete .cbin + .ch from an earlier keep_original=True run
+    F, raw = _install(True, earlier)
     if stale_tmp:
         F.add(BASE + ".cbin_tmp", True, 3, Cbin(raw, False, (NS, NC)))
     sr = ctx.call("open", spikeglx.Reader, FakePath(BASE + ".bin"))
@@ -340,6 +344,8 @@ not_reproduced()
         return common + f"""
 keep, fault = {bool(m.get('keep_original'))}, {fault!r}
 mk_bin()
+if {bool(m.get('earlier_compressed_copy_exists'))}:        # a complete .cbin + .ch from an earlier keep_original=True run
+    _s = spikeglx.Reader(d / 'x.imec0.ap.bin'); _s.compress_file(keep_original=True, chunk_duration=0.02, n_threads=1); _s.close()
 if {bool(m.get('stale_tmp_exists'))}: (d / 'x.imec0.ap.cbin_tmp').write_bytes(b'junk')
 sr = spikeglx.Reader(d / 'x.imec0.ap.bin')
 # inject a failure inside mtscomp's writer at the chosen point (python-level)
@@ -350,7 +356,7 @@ def failing(self, *a, **k):
     state['n'] += 1
     if fault is not None and state['n'] == max(1, fault): raise Boom('injected')
     return orig_write(self, *a, **k)
-if fault is not None and fault <= 2: M.Writer.compress_batch = failing
+if fault is not None and fault <= 4: M.Writer.compress_batch = failing
 raised = None
 try:
     out = sr.compress_file(keep_original=keep, chunk_duration=0.02, n_threads=1)
